@@ -91,6 +91,12 @@ func main() {
 			root = os.Args[2]
 		}
 		fmt.Print(dumpFacts(root))
+	case "cols":
+		root := "/repo"
+		if len(os.Args) > 2 {
+			root = os.Args[2]
+		}
+		fmt.Print(dumpCols(root))
 	case "run":
 		fs := flag.NewFlagSet("run", flag.ExitOnError)
 		commonFlags(fs)
